@@ -454,7 +454,7 @@ def c11(cx):
 
 def c15(cx):
     thorough = cx.tier == "thorough"
-    build_harness(cx, race=thorough)
+    build_harness(cx, race=True)
     # the sharing structure has no concurrent access to a type map; the pinned one has (negative self-test)
     model_check(cx, "PgShare", cfg="MC_PgShare.cfg", export=False)
     if thorough:
@@ -476,7 +476,7 @@ def c15(cx):
         rejected = [] if crash else validate(cx, trace, "Trace_PgConn")
     judge(cx, b, trace, rejected, crash, "Trace_PgConn", play_cmd="multi", play_extra=["-proj", "C15"])
     count_distinct(cx, b)
-    cx.cov["trusted_base"] = TB_SRV + (["Go race detector (auxiliary monitor, thorough tier)"] if thorough else [])
+    cx.cov["trusted_base"] = TB_SRV + ["Go race detector (auxiliary monitor)"]
     return finish(cx, "model_checking",
                   "TLC checks on PgShare that, with one type map per connection, no two connections are ever inside the "
                   "same map and the global parameter map is only read (the one-map-per-server design of the pinned tree is "
@@ -487,7 +487,7 @@ def c15(cx):
                   "which definition ran with which parameters, what every callback saw in its context - is validated by TLC "
                   "against the single-connection specification PgConn, i.e. it is what that client's traffic produces on a "
                   "server serving it alone; the type maps each connection encoded with (verif hook around Encode) must be its "
-                  "own. Thorough: the harness is built with -race and any report naming the library is a violation.",
+                  "own. The harness is built with -race and any report naming the library is a violation.",
                   ASSUME_CONN + ["the race detector is an auxiliary monitor outside the TLA+ family (DESIGN 4 C15)"])
 
 
